@@ -2,6 +2,7 @@
 package eng
 
 import (
+	_ "aaverif/eng/atest"
 	_ "aaverif/eng/hist"
 	_ "aaverif/eng/outdir"
 )
